@@ -7,6 +7,8 @@ CONSTANTS
   Excl = TRUE
   WinLock = TRUE
   Fault = "none"
+  StrictBackend = TRUE
+  DrainAfterDecode = TRUE
   ReadPolicy = "lazy"
   Modes <- ModesCt
   Levels <- LevelsOne
